@@ -283,6 +283,9 @@ def validate_record(res, plat, name, u, r, v, mods):
             if degenerate(v, u) and "F-X20" in KNOWN:
                 HITS.setdefault("F-X20", "re-parsing record.url loses a record whose field is a dot segment or empty, e.g. %r -> %r" % (u, v))
                 return
+            if v[0] == "GoogleDriveFile" and v[2] == "pub" and "F-X23" in KNOWN:
+                HITS.setdefault("F-X23", "a Drive file whose id is the segment 'pub' does not survive its url, e.g. %r -> %r" % (u, v))
+                return
             if query_unsafe(v) and "F-X21" in KNOWN:
                 HITS.setdefault("F-X21", "record.url places a field holding a query metacharacter in a query string, e.g. %r -> %r" % (u, v))
                 return
